@@ -178,7 +178,12 @@ SlotUniverse(s) ==
       [] s = "b_out_amount" -> {AdaE(PN), Op("add", AdaE(PN), AdaE(PM)), Op("sub", AdaE(PN), AdaE(PM)), AdaE(Op("add", PN, PM)),
                                 AdaE(U("neg", PN)), U("neg", AdaE(PN)), TokE(PN), Op("add", AdaE(Lit(1000000)), TokE(PN)),
                                 Op("add", AdaE(Lit(1000000)), AnyA(Hex(H2), Str(<<98>>), Op("sub", PN, PM))),
-                                Op("sub", Op("sub", Source, AdaE(PN)), FeesE), Op("sub", Source, TokE(PN))}
+                                Op("sub", Op("sub", Source, AdaE(PN)), FeesE), Op("sub", Source, TokE(PN)),
+                                \* a running total that dips below zero and comes back: the exact value is what counts
+                                Op("add", Op("sub", AdaE(Lit(1000000)), AdaE(PN)), AdaE(PN)),
+                                Op("add", Op("sub", Op("add", AdaE(Lit(2000000)), TokE(Lit(5))), TokE(PN)), TokE(PN)),
+                                Op("add", Op("sub", Op("sub", Source, AdaE(PN)), FeesE), AdaE(PN)),
+                                Op("add", Op("sub", Source, TokE(PN)), TokE(Op("sub", PN, PM)))}
       [] s \in {"b_mint", "b_burn"} -> {TokE(PN), TokE(Op("sub", PN, PM)), TokE(Op("add", PN, PM)), AnyA(Hex(H2), Str(<<98>>), U("neg", PN))}
       \* the mint field aggregates blocks: two mints of one asset, a mint and a burn of it, the same over two assets of a policy
       [] s \in {"b_mint2", "b_mint_burn", "b_burn2", "b_mint3"} -> {TokE(PN), Op("add", TokE(PN), AnyA(Hex(H1), Str(<<98>>), PN)), AnyA(Hex(H2), Str(<<98>>), PN)}
